@@ -17,6 +17,7 @@ import (
 	"github.com/BurntSushi/toml"
 	"github.com/google/osv-scalibr/extractor/filesystem"
 	"github.com/google/osv-scalibr/extractor/filesystem/language/cpp/conanlock"
+	"github.com/google/osv-scalibr/extractor/filesystem/language/dart/pubspec"
 	"github.com/google/osv-scalibr/extractor/filesystem/language/dotnet/depsjson"
 	"github.com/google/osv-scalibr/extractor/filesystem/language/dotnet/packagesconfig"
 	"github.com/google/osv-scalibr/extractor/filesystem/language/dotnet/packageslockjson"
@@ -33,6 +34,7 @@ import (
 	"github.com/google/osv-scalibr/extractor/filesystem/language/python/uvlock"
 	"github.com/google/osv-scalibr/extractor/filesystem/language/r/renvlock"
 	"github.com/google/osv-scalibr/extractor/filesystem/language/rust/cargolock"
+	"github.com/google/osv-scalibr/extractor/filesystem/language/rust/cargotoml"
 	"github.com/google/osv-scalibr/extractor/filesystem/language/swift/packageresolved"
 	"github.com/google/osv-scalibr/extractor/filesystem/language/swift/podfilelock"
 	chromeextensions "github.com/google/osv-scalibr/extractor/filesystem/misc/chrome/extensions"
@@ -67,6 +69,8 @@ var decodedTargets = map[string]target{
 	"snap":               {snap.NewDefault, "snap/core/1/meta/snap.yaml"},
 	"podfilelock":        {podfilelock.NewDefault, "Podfile.lock"},
 	"packagejson":        {packagejson.NewDefault, "node_modules/a/package.json"},
+	"pubspec":            {pubspec.New, "pubspec.lock"},
+	"cargotoml":          {cargotoml.New, "Cargo.toml"},
 	"gradleverification": {gradleverificationmetadataxml.New, "gradle/verification-metadata.xml"},
 	"flatpak":            {flatpak.NewDefault, "var/lib/flatpak/app/a/current/active/export/share/metainfo/a.metainfo.xml"},
 	"packagesconfig":     {packagesconfig.NewDefault, "packages.config"},
@@ -163,7 +167,24 @@ func stubTryExtractCommit(resolution string) string {
 	return ""
 }
 
+// Bounded model of strconv.ParseFloat for the runs that ask for it (parameter
+// model_parsefloat=1): the numeric strings of the bound are the three literals below, every other
+// string is outside the bound (the path is dropped, not judged). Exact on what it admits.
+func stubParseFloat(s string, bitSize int) (float64, error) {
+	switch {
+	case verifrt.StrEq(s, "5.4"):
+		return 5.4, nil
+	case verifrt.StrEq(s, "6.0"):
+		return 6.0, nil
+	case verifrt.StrEq(s, "9.0"):
+		return 9.0, nil
+	}
+	verifrt.Assume(false)
+	return 0, nil
+}
+
 var verifReplacementsIf = map[string]any{
+	"model_parsefloat=1|strconv.ParseFloat": stubParseFloat,
 	"summarise_commit=1|github.com/google/osv-scalibr/extractor/filesystem/language/javascript/internal/commitextractor.TryExtractCommit": stubTryExtractCommit,
 }
 
